@@ -35,19 +35,29 @@ def main():
         jobs.append(('StreamOps.v', lambda: skeleton_ir.generate(repo)))
     # per-property translators: tools/facts_<Name>.py with generate(repo) -> text of Gen/Facts<Name>.v
     import importlib
+    core_jobs = len(jobs)
     for fn in sorted(os.listdir(HERE)):
         if fn.startswith('facts_') and fn.endswith('.py'):
-            mod = importlib.import_module(fn[:-3])
-            jobs.append(('Facts%s.v' % fn[6:-3], (lambda m: (lambda: m.generate(repo)))(mod)))
-    for name, fn in jobs:
+            jobs.append(('Facts%s.v' % fn[6:-3],
+                         (lambda m: (lambda: importlib.import_module(m).generate(repo)))(fn[:-3])))
+    for i, (name, fn) in enumerate(jobs):
         try:
             text = fn()
             ch = write_if_changed(os.path.join(out, name), text)
             print('regen: Gen/%s %s' % (name, 'rewritten' if ch else 'unchanged'))
         except Exception:
-            rc = 1
             print('regen: Gen/%s FAILED (translator is fail-closed)' % name)
             traceback.print_exc(file=sys.stdout)
+            if i < core_jobs:
+                rc = 1
+            else:
+                # a per-property translator failed: remove its stale output so that exactly the
+                # properties depending on it stop compiling (fail-closed for them only)
+                for ext in ('.v', '.vo', '.vos', '.vok', '.glob'):
+                    try:
+                        os.remove(os.path.join(out, name[:-2] + ext))
+                    except OSError:
+                        pass
     return rc
 
 
